@@ -103,7 +103,7 @@ def run(ctx):
     if ok or idx != 1:
         raise tlc.MachineryError("binding self-test failed: swapped individuals accepted")
     ctx.log("self-test: record with swapped individual order rejected (as required)")
-    ctx.exhaustive = True
+    ctx.exhaustive = False   # the enumerated small tables are complete, larger tables and the joint family are sampled
 
 
 LAYOUT_CFGS = {"joint": ("MC_IngestLayouts_joint.cfg", "MC_IngestLayouts_joint_31.cfg"),
